@@ -61,10 +61,52 @@ class Vec:
     __hash__ = None  # type: ignore[assignment]
 
 
+class Touchy:
+    """Ordered by ``k``; comparing a flagged instance fails with a standard exception that is NOT TypeError
+    (like the ambiguous truth value of an array, or a key that cannot be converted)."""
+
+    _EXC = {"ValueError": ValueError, "KeyError": KeyError, "AttributeError": AttributeError, "LookupError": LookupError,
+            "RuntimeError": RuntimeError}
+
+    def __init__(self, k: Any, exc: Any = None):
+        self.k, self.exc = k, exc
+
+    def __repr__(self) -> str:
+        return f"Touchy({self.k!r}, {self.exc!r})"
+
+    def _cmp(self, other: Any, op: Any) -> Any:
+        if not isinstance(other, Touchy):
+            return NotImplemented
+        for x in (self, other):
+            if x.exc:
+                raise self._EXC[x.exc](f"comparison of {x!r}")
+        return op(self.k, other.k)
+
+    def __lt__(self, other: Any) -> Any:
+        return self._cmp(other, lambda a, b: a < b)
+
+    def __gt__(self, other: Any) -> Any:
+        return self._cmp(other, lambda a, b: a > b)
+
+    def __le__(self, other: Any) -> Any:
+        return self._cmp(other, lambda a, b: a <= b)
+
+    def __ge__(self, other: Any) -> Any:
+        return self._cmp(other, lambda a, b: a >= b)
+
+    def __eq__(self, other: Any) -> Any:
+        return self._cmp(other, lambda a, b: a == b)
+
+    def __hash__(self) -> int:
+        return hash(self.k)
+
+
 def decode(v: Any) -> Any:
     """Decode a JSON-able raw value."""
     if isinstance(v, list):
         tag = v[0]
+        if tag == "X":
+            return Touchy(v[1], v[2])
         if tag == "V":
             return Vec(v[1])
         if tag == "F":
@@ -433,6 +475,8 @@ def run_sync_side(spec: dict, fault: Optional[Fault] = None, steps: Optional[int
     else:
         # generator twins do not observe a pull after exhaustion, exactly like generator sources
         S = [sync_gen(st) if gen_twin else SyncSrc(st) for st in side.srcs]
+        for i, j in spec.get("same", []):
+            S[j] = S[i]  # ONE single-use iterator handed over as two arguments (the zip(it, it) idiom)
     if spec["tool"] == "chain_from_iterable":
         outer = SrcState("outer", S, NOPLAN, log)
         if fault is not None and fault.kind == "outer":
@@ -540,6 +584,8 @@ def run_async_side(spec: dict, flavours: Optional[List[str]] = None, fn_flavours
         S: List[Any] = []
     else:
         S = [make_source(st, fl) for st, fl in builtins.zip(side.srcs, flavours)]
+        for i, j in spec.get("same", []):
+            S[j] = S[i]
     if spec["tool"] == "chain_from_iterable":
         outer = SrcState("outer", S, Plan(susp if outer_flavour.startswith("async") else 0), log)
         if fault is not None and fault.kind == "outer":
